@@ -72,7 +72,7 @@ CLAIMS = {
              "~150) the policy obtained by evaluating the library's parser and lift is true for a set of owned keys, "
              "preimages, nLockTime and nSequence exactly when a canonical witness from those assets makes the "
              "specification's script succeed in the reference execution (every key subset x preimage subset x lock "
-             "threshold).",
+             "threshold). The generic iterators of iter/tree.rs (post-order, right-to-left post-order, pre-order; their Iterator::next evaluated from source) yield exactly the definition's order, indices and child indices on policy trees and every miniscript fragment, and the analyser's model of them used by the other rules is that behaviour (shared rule).",
         note="Trusted: spec/semantics.py, spec/msexec.py (reference execution, canonical witnesses), spec/policy_sem.py; "
              "model of generic tree iterators; rustc THIR. Bounded family.",
         tech=STATIC + "symbolic per-variant extraction of the lift fold from THIR compared with a specification table",
@@ -88,7 +88,7 @@ CLAIMS = {
              "push-size and compact-size breakpoint; script_size of every fragment equals the encoder's template length "
              "(rule shared with C04); and measured on ~60 whole scripts: the figures computed by evaluating parser + type "
              "checker bound every witness the evaluated satisfier produces (every key subset x preimage set x both modes) "
-             "in element count and bytes, and script_size / pk_cost equal the script's byte length. Every typed leaf constructor of Miniscript (pk_k ... sortedmulti_a, TRUE / FALSE: what parser, decoder and compiler use) attaches the type and figures that from_ast computes for the same node, in every context (shared rule).",
+             "in element count and bytes, and script_size / pk_cost equal the script's byte length. Every typed leaf constructor of Miniscript (pk_k ... sortedmulti_a, TRUE / FALSE: what parser, decoder and compiler use) attaches the type and figures that from_ast computes for the same node, in every context (shared rule). The public accessors max_satisfaction_size / max_satisfaction_witness_elements return those figures.",
         note="Trusted: spec/satisfaction.py, spec/script.py, spec/limits.py; rustc THIR. Executed-opcode and exec-stack "
              "depth figures are not decided against an execution.",
         tech=STATIC + "symbolic extraction of accounting rules as max-plus / linear forms, domination check against template images",
@@ -115,7 +115,7 @@ CLAIMS = {
              "whole descriptors (~75 canonical texts of every output type incl. near-twins differing in one key, "
              "threshold, arity, key order, lock, tree shape or internal key; parsed by evaluating the parser): == holds "
              "exactly for identical texts, cmp is Equal exactly then, antisymmetric and a linear order on the family, "
-             "clones are equal, and equal descriptors feed the same stream to a Hasher (~5600 pairs).",
+             "clones are equal, and equal descriptors feed the same stream to a Hasher (~5600 pairs). The generic iterators of iter/tree.rs (post-order, right-to-left post-order, pre-order; their Iterator::next evaluated from source) yield exactly the definition's order, indices and child indices on policy trees and every miniscript fragment, and the analyser's model of them used by the other rules is that behaviour (shared rule).",
         note="Trusted: model of the generic tree iterators in iter/tree.rs; key/hash types' own Eq/Ord/Hash; rustc THIR. "
              "Deep trees follow from per-node coverage + arity via the generic pre-order traversal (not re-proved).",
         tech=STATIC + "derive census + payload-coverage decision table extracted from impl bodies (THIR evaluation on model values)",
@@ -145,7 +145,7 @@ CLAIMS["C20"] = dict(
          "for_each_key and iter_pk visit exactly the multiset of key names of the text and for_each_key reports a "
          "refusal; translate_pk with the identity gives an equal descriptor, with a renaming the descriptor of the "
          "substituted text, twice equals once with the composed mapping, and a mapping failing on any one key fails with "
-         "that error.",
+         "that error. The generic iterators of iter/tree.rs (post-order, right-to-left post-order, pre-order; their Iterator::next evaluated from source) yield exactly the definition's order, indices and child indices on policy trees and every miniscript fragment, and the analyser's model of them used by the other rules is that behaviour (shared rule).",
     note="Trusted: model of the generic tree iterators; rustc THIR. Identity / composition laws on deep trees and "
          "derivation-level key behaviour are not re-proved.",
     tech=STATIC + "per-variant structure-preservation table extracted by evaluating THIR on model values; dispatch uniformity over match arms",
@@ -167,7 +167,7 @@ CLAIMS["C16"] = dict(
          "are refused; has_wildcard / is_multipath / into_definite / derive_at_index answer accordingly and "
          "derived_descriptor's keys are derived along exactly those paths; Tr::script_pubkey is OP_1 <output key> and "
          "Tr::address the tweaked-key address of the same key; DescriptorSecretKey::to_public moves exactly the hardened "
-         "prefix into the origin and keeps origin path + path.",
+         "prefix into the origin and keeps origin path + path. Descriptor::desc_type / DescriptorType answer the kind the text names (incl. sorted-multi and nested forms).",
     note="Trusted: spec/outputs.py; rust-bitcoin script/address constructors and BIP-32 child derivation modelled as term "
          "constructors; rustc THIR. BIP32 arithmetic and taproot output keys (C15) are not decided.",
     tech=STATIC + "symbolic extraction of output-script terms compared with a standards table; sibling agreement; dispatch uniformity",
@@ -225,7 +225,7 @@ CLAIMS["C13"] = dict(
          "every lock, interpreter acceptance implies script acceptance with exactly the executed checks reported. "
          "from_txdata's success set, kept stack, inner kind and script code equal the BIP-16/141/143/341 table on all "
          "(scriptSig, witness) combinations up to length 2 over right/wrong keys, redeem and witness scripts, control "
-         "blocks, annex. The signature-hash flavour used per output type is the BIP-143/341 one.",
+         "blocks, annex. The signature-hash flavour used per output type is the BIP-143/341 one. Interpreter::to_no_checks keeps script, stack and kind (the copy inferred without signature checking evaluates the same script).",
     note="Trusted: spec/msexec.py (reference Script semantics on abstract values, consensus rules), spec/script.py, "
          "spec/satisfaction.py; models of rust-bitcoin parsing / hashing / Script API on tokens; rustc THIR; the evaluator. "
          "Real signature verification, byte-level decoding of the scripts (C04) and the policy-satisfaction clause are "
@@ -271,7 +271,7 @@ CLAIMS["C18"] = dict(
          "atoms and representative depth-1 thresholds; ~5-17k policies) against an independent truth-table oracle: "
          "truth tables preserved, idempotence, normal form, order independence of sorted, exact restriction by age / "
          "lock time below / at / above every lock and in the other unit, key counts, entailment == implication on all "
-         "pairs of a sub-family, mixed-lock check == existence of a path needing both units.",
+         "pairs of a sub-family, mixed-lock check == existence of a path needing both units. The generic iterators of iter/tree.rs (post-order, right-to-left post-order, pre-order; their Iterator::next evaluated from source) yield exactly the definition's order, indices and child indices on policy trees and every miniscript fragment, and the analyser's model of them used by the other rules is that behaviour (shared rule).",
     note="Trusted: spec/policy_sem.py (atoms independent, as the library's entailment treats them); rust-bitcoin lock "
          "comparison on consensus encodings; evaluator; model of the generic tree iterators. Bounded family: deeper / "
          "wider policies are not enumerated.",
